@@ -179,6 +179,21 @@ def run_diff(prog):
 
 # --------------------------------------------------------------- (B) multi-loop
 def gen_multi(rng, mode):
+    if mode == 'alternating':
+        # one thread drives several OPEN loops in turn with run_until_complete(): a loop is paused, not closed, in between
+        nloops = rng.randint(2, 3)
+        segs = []
+        for _ in range(rng.randint(3, 6)):
+            calls = []
+            t = 0.0
+            for _c in range(rng.randint(1, 3)):
+                t += _w(rng, [(0.0, 5), (Q, 2), (0.0625 + Q, 2), (0.25, 1)])
+                calls.append({'at': t, 'arg': rng.randrange(3)})
+            segs.append({'loop': rng.randrange(nloops), 'calls': calls})
+        return {'world': 'deco', 'part': 'multi', 'mode': mode, 'loops': [{'calls': []} for _ in range(nloops)], 'segments': segs,
+                'opts': {'max_batch_size': rng.randint(1, 3), 'batch_timeout': 0.0625,
+                         'max_concurrent_batches': rng.randint(1, 2), 'retention_timeout': rng.choice([0.0, 0.125, 4.0, 4.0])},
+                'item_dur': rng.choice([0.0, Q, 0.125])}
     nloops = rng.randint(1, 3) if mode == 'successive' else rng.randint(2, 3)
     loops = []
     for li in range(nloops):
@@ -207,6 +222,7 @@ class MultiWorld:
         self.pending = set()
         self.loop_t0 = {}
         self.loop_of = {}
+        self.seg_times = []
 
     def viol(self, oracle, sig, detail, **f):
         self.violations.append({'property': 'C15', 'oracle': oracle, 'signature': sig, 'detail': detail, 'features': f,
@@ -240,7 +256,6 @@ class MultiWorld:
     async def one_call(self, li, ci, c):
         loop = asyncio.get_running_loop()
         self.pending.add((li, ci))
-        arg = ('L%d' % li, c['arg'])        # per-loop distinct args, same *key strings* would need same str(arg)
         try:
             r = await self.fn(c['arg'], key='k%d' % c['arg'])
             self.results[(li, ci)] = ('value', r, loop.sim_id)
@@ -260,10 +275,57 @@ class MultiWorld:
         except BaseException as e:  # noqa
             self.harness_errors.append(f'loop {li}: {type(e).__name__}: {e}')
 
+    def run_alternating(self):
+        sch = self.sch
+        p = self.prog
+        try:
+            loops = [SimLoop() for _ in p['loops']]
+            for li, L in enumerate(loops):
+                self.loop_of[L.sim_id] = li
+                self.loop_t0[L.sim_id] = 0.0
+            self.seg_times = []
+            solo = p.get('_solo')
+            for si, seg in enumerate(p['segments']):
+                t0 = sch.clock
+                if solo is not None and seg['loop'] != solo:
+                    # the other loops' segments only let (the same amount of) time pass
+                    a, b = p['_seg_times'][si]
+                    if b > sch.clock:
+                        sch.sleep(b - sch.clock)
+                else:
+                    L = loops[seg['loop']]
+                    asyncio.set_event_loop(L)
+                    L.run_until_complete(self.lmain_seg(seg['loop'], si, seg))
+                    asyncio.set_event_loop(None)
+                self.seg_times.append((t0, sch.clock))
+            for L in loops:
+                asyncio.set_event_loop(L)
+                asyncio.runners._cancel_all_tasks(L)
+                L.close()
+            asyncio.set_event_loop(None)
+        except S.Abort:
+            raise
+        except BaseException as e:  # noqa
+            self.harness_errors.append(f'alternating: {type(e).__name__}: {e}')
+
+    async def lmain_seg(self, li, si, seg):
+        loop = asyncio.get_running_loop()
+        t0 = loop.time()
+        tasks = []
+        for ci, c in enumerate(seg['calls']):
+            due = t0 + c['at']
+            if due > loop.time():
+                await asyncio.sleep(due - loop.time())
+            tasks.append(loop.create_task(self.one_call((li, si), ci, c)))
+        await asyncio.gather(*tasks)
+
     def main(self):
         sch = self.sch
         self.fn = self.aa.async_background_batcher(**self.prog['opts'])(self.bf)
-        if self.prog['mode'] == 'successive':
+        if self.prog['mode'] == 'alternating':
+            t = sch.spawn(self.run_alternating, 'driver')
+            sch.join([t])
+        elif self.prog['mode'] == 'successive':
             for li in range(len(self.prog['loops'])):
                 t = sch.spawn(partial(self.run_loop, li), f'loop{li}')
                 sch.join([t])
@@ -286,8 +348,8 @@ class MultiWorld:
         if end != 'normal':
             self.viol('deco.multiloop_hang', 'a caller of the decorated batcher never completes',
                       f'mode {self.prog["mode"]}: run ended {end}; pending callers {sorted(self.pending)}', mode=self.prog['mode'])
-        for (li, ci), (kind, r, lid) in sorted(self.results.items()):
-            c = self.prog['loops'][li]['calls'][ci]
+        for (li, ci), (kind, r, lid) in sorted(self.results.items(), key=repr):
+            c = self.prog['segments'][li[1]]['calls'][ci] if isinstance(li, tuple) else self.prog['loops'][li]['calls'][ci]
             if kind != 'value':
                 self.viol('deco.multiloop_error', 'a caller of the decorated batcher failed',
                           f'loop {li} call {ci}: {r!r}', mode=self.prog['mode'])
@@ -334,8 +396,21 @@ def run_multi(prog, sspec, solo_of=None):
                 pass
     trace = w.per_loop_trace()
     if solo_of is not None:
-        return trace.get(0, [])
-    if end == 'normal' and not w.violations and len(prog['loops']) > 1:
+        return trace.get(solo_of if prog['mode'] == 'alternating' else 0, [])
+    if prog['mode'] == 'alternating' and end == 'normal' and not w.violations:
+        for li in range(len(prog['loops'])):
+            if not any(seg['loop'] == li for seg in prog['segments']):
+                continue
+            solo = json.loads(json.dumps(prog))
+            solo['_solo'] = li
+            solo['_seg_times'] = [list(x) for x in w.seg_times]
+            alone = run_multi(solo, {'seed': 0, 'strategy': ('sticky', 0.0)}, solo_of=li)
+            if alone != trace.get(li, []):
+                w.viol('deco.multiloop_not_independent', "a loop's batching depends on the other loops using the decorated function",
+                       f'mode alternating (one thread drives {len(prog["loops"])} open loops in turn), options {prog["opts"]}: loop {li} '
+                       f'with the others idle batches as {alone}, interleaved with their use as {trace.get(li, [])}', mode='alternating')
+                break
+    if prog['mode'] != 'alternating' and end == 'normal' and not w.violations and len(prog['loops']) > 1:
         # "each loop getting its own independent batching": what a loop's callers see must not depend on the other
         # loops -- compare every loop's batches (contents, instants relative to its start) with a run of that loop alone
         for li in range(len(prog['loops'])):
